@@ -537,4 +537,209 @@ theorem fgood_sinkUp {n : Nat} {st : St} {g : G} {tr : List (Ev α α)} {stk : L
     subst h
     simp [ctxOf] at hc; subst hc; simp [isTop, inGreet, inData] at hctx
 
+theorem fgood_srcGreet {n : Nat} {st : St} {g : G} {tr : List (Ev α α)} {stk : List (Frame (Loc α) α)} {c : Ctx α} (i : Nat)
+    (hb : Base n g.ph) (hm : Mode n st g.ph stk) (hext : Ext g stk) (hc : ctxOf stk = some c)
+    (hl : legalIn (machine α n).shape g.ph c (.srcGreet i : In α) = true) :
+    FGood n (⟨st, .run (enter (.srcGreet i)) :: stk, g.onIn stk.length (.srcGreet i : In α), .inp (.srcGreet i) :: tr, none⟩ : Cfg α) := by
+  simp only [legalIn, Bool.and_eq_true, beq_iff_eq, Bool.or_eq_true, machine, Bool.true_and] at hl
+  obtain ⟨hsub, hctx⟩ := hl
+  have hin : i < n := hb.lt (by rw [hsub]; simp)
+  have hidle := idle_setSrc (g := g.ph) (i := i) .live (by rw [hsub]; simp)
+  have e0 : (g.onIn stk.length (.srcGreet i : In α)).ph = g.ph.setSrc i .live := by simp [Ph.onIn]
+  cases hm with
+  | init _ _ _ _ _ _ h => rw [h] at hsub; cases hsub
+  | stable hs hstk =>
+    have hx : XS g := (ext_iff_of_stk hstk).1 hext
+    cases hs with
+    | opn he ho hsl hec =>
+      have hnd := openSink_noDone ho hb
+      have hsl' : ∀ j, phAt (setAt st.slots i true) j = true ↔ (g.ph.setSrc i .live).srcPh j = .live := by
+        intro j
+        by_cases hj : j = i
+        · subst hj; simp [phAt_setAt]
+        · simp [phAt_setAt, hj, hsl j]
+      have hec' : st.endCount = endedCnt (g.ph.setSrc i .live) n := by
+        rw [endedCnt_setSrc_ne n (by rw [hsub]; simp) (by simp)]; exact hec
+      rcases ho with ⟨hsk, hsc, hnl⟩ | ⟨hsk, hsc⟩
+      · have e : ((g.onIn stk.length (.srcGreet i : In α)).onOut (machine α n).shape (Out.greet 0 : Out α)).ph =
+            (g.ph.setSrc i .live).setSink 0 .live := by
+          simp [Ph.onIn, Ph.onOut, hsk]
+        refine fgood_of_advance 3 (s' := ⟨⟨setAt st.slots i true, st.startCount + 1, st.endCount, st.ended⟩,
+            .wait (.greet 0) .done :: stk,
+            (g.onIn stk.length (.srcGreet i : In α)).onOut (machine α n).shape (Out.greet 0 : Out α),
+            .out (.greet 0) :: .inp (.srcGreet i) :: tr, none⟩)
+          (by simp [advance, opStep, machine, enter, step, he, hsc]) (fgood_mk ?_ ?_)
+        · rw [e]
+          refine ⟨(hb.setSrc hin _).setSink _, .stable (.opn he (Or.inr ⟨by simp, by simp⟩) hsl' hec')
+            ⟨trivial, (hstk.mono hidle).setSink _ _⟩⟩
+        · exact ext_done.2 (hx.transfer_noDone ((same2_onIn_srcGreet g _ i).trans (same2_onOut_greet _ _ _)) hnd
+            (by rw [e]; exact noOrphan_of_open 0 (Or.inr (by simp))))
+      · refine fgood_of_advance 3 (s' := ⟨⟨setAt st.slots i true, st.startCount + 1, st.endCount, st.ended⟩, stk,
+            (g.onIn stk.length (.srcGreet i : In α)).onRetO stk.length,
+            .retO :: .inp (.srcGreet i) :: tr, none⟩)
+          (by simp [advance, opStep, machine, enter, step, he, hsc]) (fgood_mk ?_ ?_)
+        · rw [onRetO_ph, e0]
+          exact ⟨hb.setSrc hin _, .stable (.opn he (Or.inr ⟨by simpa using hsk, by simp⟩) hsl' hec') (hstk.mono hidle)⟩
+        · exact (ext_iff_of_stk hstk).2 ((hx.transfer_noDone (same2_onIn_srcGreet g _ i) hnd
+            (by rw [e0]; exact noOrphan_of_open 0 (Or.inr (by simpa using hsk)))).onRetO _)
+    | compl he _ h _ => rw [h i hin] at hsub; cases hsub
+    | closed he hsk hnl =>
+      have e : ((g.onIn stk.length (.srcGreet i : In α)).onOut (machine α n).shape (Out.srcUp i .term : Out α)).ph =
+          (g.ph.setSrc i .live).setSrc i .disposed := by
+        simp [Ph.onIn, Ph.onOut]
+      have hnl' : ∀ j, ((g.ph.setSrc i .live).setSrc i .disposed).srcPh j ≠ .live := by
+        intro j
+        by_cases hj : j = i
+        · subst hj; simp
+        · simpa [hj] using hnl j
+      refine fgood_of_advance 1 (s' := ⟨st, .wait (.srcUp i .term) .done :: stk,
+          (g.onIn stk.length (.srcGreet i : In α)).onOut (machine α n).shape (Out.srcUp i .term : Out α),
+          .out (.srcUp i .term) :: .inp (.srcGreet i) :: tr, none⟩)
+        (by simp [advance, opStep, machine, enter, step, he]) (fgood_mk ?_ ?_)
+      · rw [e]
+        exact ⟨(hb.setSrc hin _).setSrc hin _, .stable (.closed he hsk hnl') ⟨trivial, (hstk.mono hidle).mono (idle_setSrc _ (by simp))⟩⟩
+      · refine ext_done.2 (hx.transfer_noLive ((same2_onIn_srcGreet g _ i).trans (same2_onOut_term _ _ _ hx.se)) ?_ ?_)
+        · rw [e]; exact hnl'
+        · rw [e]; intro k hk; simpa using hk
+  | uloop j u rest _ _ _ h =>
+    subst h
+    simp [ctxOf] at hc; subst hc; simp [isTop, inSub] at hctx
+  | eloop j' j e rest _ _ h =>
+    subst h
+    simp [ctxOf] at hc; subst hc; simp [isTop, inSub] at hctx
+
+theorem fgood_srcDown {n : Nat} {st : St} {g : G} {tr : List (Ev α α)} {stk : List (Frame (Loc α) α)} {c : Ctx α} (i : Nat) (d : Down α)
+    (hb : Base n g.ph) (hm : Mode n st g.ph stk) (hext : Ext g stk) (hc : ctxOf stk = some c)
+    (hl : legalIn (machine α n).shape g.ph c (.srcDown i d : In α) = true) :
+    FGood n (⟨st, .run (enter (.srcDown i d)) :: stk, g.onIn stk.length (.srcDown i d : In α), .inp (.srcDown i d) :: tr, none⟩ : Cfg α) := by
+  simp only [legalIn, Bool.and_eq_true, beq_iff_eq, Bool.or_eq_true] at hl
+  obtain ⟨hlive, hctx⟩ := hl
+  have hin : i < n := hb.lt (by rw [hlive]; simp)
+  cases hm with
+  | init _ _ _ _ _ _ h => rw [h] at hlive; cases hlive
+  | stable hs hstk =>
+    have hx : XS g := (ext_iff_of_stk hstk).1 hext
+    cases hs with
+    | opn he ho hsl hec =>
+      rcases ho with ⟨_, _, hnl⟩ | ⟨hsk, hsc⟩
+      · exact absurd hlive (hnl i)
+      · have ho : OpenSink st g.ph := Or.inr ⟨hsk, hsc⟩
+        have hnd := openSink_noDone ho hb
+        cases d with
+        | data a =>
+          have e : ((g.onIn stk.length (.srcDown i (.data a) : In α)).onOut (machine α n).shape (Out.down 0 (.data a) : Out α)).ph = g.ph := by
+            simp [Ph.onIn, Ph.onOut, hsk, isFinal]
+          refine fgood_of_advance 1 (s' := ⟨st, .wait (.down 0 (.data a)) .done :: stk,
+              (g.onIn stk.length (.srcDown i (.data a) : In α)).onOut (machine α n).shape (Out.down 0 (.data a) : Out α),
+              .out (.down 0 (.data a)) :: .inp (.srcDown i (.data a)) :: tr, none⟩)
+            (by simp [advance, opStep, machine, enter, step]) (fgood_mk ?_ ?_)
+          · rw [e]
+            exact ⟨hb, .stable (.opn he ho hsl hec) ⟨trivial, hstk⟩⟩
+          · exact ext_done.2 (hx.transfer_noDone ((same2_onIn_data g _ i a).trans (same2_onOut_data _ _ _ _)) hnd
+              (by rw [e]; exact openSink_noOrphan ho))
+        | term =>
+          have hidle := idle_setSrc (g := g.ph) (i := i) .ended (by rw [hlive]; simp)
+          have e0 : (g.onIn stk.length (.srcDown i .term : In α)).ph = g.ph.setSrc i .ended := by simp [Ph.onIn]
+          have hcnt : endedCnt (g.ph.setSrc i .ended) n = st.endCount + 1 := by
+            rw [endedCnt_setSrc_ended n hin (by rw [hlive]; simp), hec]
+          have hx0 : XS (g.onIn stk.length (.srcDown i .term : In α)) :=
+            hx.transfer_noDone (same2_onIn_srcTerm g _ i) hnd (by rw [e0]; exact noOrphan_of_open 0 (Or.inr (by simpa using hsk)))
+          by_cases hlast : st.endCount + 1 = n
+          · have e : ((g.onIn stk.length (.srcDown i .term : In α)).onOut (machine α n).shape (Out.down 0 .term : Out α)).ph =
+                (g.ph.setSrc i .ended).setSink 0 .doneBySrc := by
+              simp [Ph.onIn, Ph.onOut, hsk, isFinal]
+            have hall := endedCnt_all (g := g.ph.setSrc i .ended) (n := n) (by rw [hcnt, hlast])
+            have hst : Stable n ⟨setAt st.slots i false, st.startCount, st.endCount + 1, st.ended⟩
+                ((g.ph.setSrc i .ended).setSink 0 .doneBySrc) := by
+              refine .compl he (by simp) (fun j hj => by simpa using hall j hj) ?_
+              intro j
+              by_cases hj : j = i
+              · subst hj; simp [phAt_setAt]
+              · simp only [phAt_setAt, hj, if_false]
+                cases hsj : phAt st.slots j with
+                | false => rfl
+                | true =>
+                  have h1 := (hsl j).1 hsj
+                  have h2 := hall j (hb.lt (by rw [h1]; simp))
+                  simp [hj, h1] at h2
+            refine fgood_of_advance 3 (s' := ⟨⟨setAt st.slots i false, st.startCount, st.endCount + 1, st.ended⟩,
+                  .wait (.down 0 .term) .done :: stk,
+                  (g.onIn stk.length (.srcDown i .term : In α)).onOut (machine α n).shape (Out.down 0 .term : Out α),
+                  .out (.down 0 .term) :: .inp (.srcDown i .term) :: tr, none⟩)
+                (by simp [advance, opStep, machine, enter, step, hlast]) (fgood_mk ?_ ?_)
+            · rw [e]
+              exact ⟨(hb.setSrc hin _).setSink _, .stable hst ⟨trivial, (hstk.mono hidle).setSink _ _⟩⟩
+            · refine ext_done.2 (hx0.out_term _ ?_ ?_)
+              · rw [e0]; exact base_noDone (hb.setSrc hin _) (by simp [hsk])
+              · have e' : (g.onIn stk.length (.srcDown i .term : In α)).ph.onOut (Out.down 0 .term : Out α) =
+                    (g.ph.setSrc i .ended).setSink 0 .doneBySrc := by
+                  rw [e0]; simp [Ph.onOut, hsk, isFinal]
+                rw [e']
+                exact stable_noOrphan ((hb.setSrc hin _).setSink _) hst
+          · refine fgood_of_advance 3 (s' := ⟨⟨setAt st.slots i false, st.startCount, st.endCount + 1, st.ended⟩, stk,
+                (g.onIn stk.length (.srcDown i .term : In α)).onRetO stk.length,
+                .retO :: .inp (.srcDown i .term) :: tr, none⟩)
+              (by simp [advance, opStep, machine, enter, step, hlast]) (fgood_mk ?_ ((ext_iff_of_stk hstk).2 (hx0.onRetO _)))
+            rw [onRetO_ph, e0]
+            refine ⟨hb.setSrc hin _, .stable (.opn he (Or.inr ⟨by simpa using hsk, hsc⟩) ?_ hcnt.symm) (hstk.mono hidle)⟩
+            intro j
+            by_cases hj : j = i
+            · subst hj; simp [phAt_setAt]
+            · simp [phAt_setAt, hj, hsl j]
+        | err x =>
+          have hidle := idle_setSrc (g := g.ph) (i := i) .ended (by rw [hlive]; simp)
+          have e0 : (g.onIn stk.length (.srcDown i (.err x) : In α)).ph = g.ph.setSrc i .ended := by simp [Ph.onIn]
+          refine fgood_of_step (s' := ⟨{ st with ended := true }, .run (.eLoop i 0 x) :: stk,
+            g.onIn stk.length (.srcDown i (.err x) : In α), .inp (.srcDown i (.err x)) :: tr, none⟩)
+            (by simp [opStep, machine, enter, step]) ?_
+          refine fgood_eLoop i x 0 (by rw [e0]; exact hb.setSrc hin _) rfl (by rw [e0]; simpa using hsk)
+            (by rw [e0]; exact hstk.mono hidle) ?_ (hx.enter_err hb hsk i x _)
+          intro j
+          rw [e0]
+          by_cases hj : j = i
+          · subst hj; simp
+          · simp [hj, hsl j]
+    | compl he _ h _ => rw [h i hin] at hlive; cases hlive
+    | closed he hsk hnl => exact absurd hlive (hnl i)
+  | uloop j u rest hu _ _ h =>
+    subst h
+    simp [ctxOf] at hc; subst hc
+    cases u with
+    | pull => cases hu
+    | _ => simp [isTop, inSub, inPull] at hctx
+  | eloop j' j e rest _ _ h =>
+    subst h
+    simp [ctxOf] at hc; subst hc; simp [isTop, inSub, inPull] at hctx
+
+theorem finv_step (n : Nat) (s s' : Cfg α) (m : Move α) (h : FInv n s) (hs : EnvStep (machine α n) m s s') : FGood n s' := by
+  obtain ⟨hp, ⟨hb, hm⟩, hext⟩ := h
+  cases hs with
+  | @call st stk g tr c i hc hl =>
+    simp only at hp hb hm hext
+    cases i with
+    | subscribe k => exact fgood_subscribe k hb hm hext hc hl
+    | sinkUp k u => exact fgood_sinkUp k u hb hm hext hc hl
+    | srcGreet i => exact fgood_srcGreet i hb hm hext hc hl
+    | srcDown i d => exact fgood_srcDown i d hb hm hext hc hl
+  | @ret st stk g tr o l hl =>
+    simp only at hp hb hm hext
+    cases hm with
+    | init _ h => cases h
+    | stable hs hstk => exact fgood_ret_stable hb hs hstk.1 hstk.2 ((ext_iff_of_stk hstk).1 hext)
+    | uloop j u rest hu he hsink hstk hrest hlv =>
+      simp at hstk; obtain ⟨⟨rfl, rfl⟩, rfl⟩ := hstk
+      exact fgood_uLoop_end u (j+1) hb hu he hsink hrest hlv ((ext_end hu).1 hext)
+    | eloop i j e rest he hsink hstk hrest hlv =>
+      simp at hstk; obtain ⟨⟨rfl, rfl⟩, rfl⟩ := hstk
+      exact fgood_eLoop i e (j+1) hb he hsink hrest hlv (ext_eloop.1 hext)
+
+/-- merge, every member count, late greeters allowed: under every conformant environment the operator never violates any
+clause of C01–C05 (both ghost layers: the sink's `Error(e)` is relayed to every live member as `Error(e)`; no member is left
+live once the output is over and control is back at top level; a member's `Error(e)` reaches the sink exactly once,
+unchanged, with every other member disposed, before the handler of that error returns) and never panics. -/
+theorem merge_safe {α : Type} (n : Nat) : ∀ s, SReach (machine α n true true) s → Safe s :=
+  safe_of_macro_inv (machine α n) (FInv n) (finv_init n) (finv_turn n) (finv_step n)
+
 end Cb.MergeFull
+
+#print axioms Cb.MergeFull.merge_safe
